@@ -1,0 +1,6 @@
+//go:build !verif
+
+package bg
+
+func verifTaskQueued()   {}
+func verifTaskFinished() {}
